@@ -227,7 +227,8 @@ func Runs[T any](s []T, same func(a, b T) bool) [][]T {
 
 // Shrink shrinks s's capacity by reallocating, if necessary, so that cap(s) <= len(s) + n.
 func Shrink[T any](s []T, n int) []T {
-	if cap(s) > len(s)+n {
+	// Written so that it cannot overflow for very large n.
+	if cap(s)-len(s) > n {
 		x2 := make([]T, len(s)+n)
 		copy(x2, s)
 		return x2[:len(s)]
